@@ -2,6 +2,8 @@ package main
 
 import (
 	"fmt"
+	"os"
+	"path/filepath"
 	"sort"
 	"strings"
 
@@ -18,7 +20,7 @@ func notEvaluated(keys []string) bool {
 	g := genericKeyPath(keys)
 	last := keys[len(keys)-1]
 	switch {
-	case strings.HasPrefix(g, "permissions.") || strings.Contains(g, ".permissions."):
+	case strings.HasPrefix(g, "permissions.") || strings.Contains(g, ".permissions.") || g == "permissions" || strings.HasSuffix(g, ".permissions"): // per-scope values and the read-all / write-all form
 		return true
 	case last == "type" && (strings.Contains(g, ".inputs.")):
 		return true
@@ -34,8 +36,39 @@ func runC03(c *ctx, r *Report) error {
 	r.Rule = "three hand-written workflows that lint clean and together use every section and key of the workflow syntax (all events with filters and inputs/secrets/outputs, permissions, env, defaults, concurrency, every job key incl. strategy.matrix with include/exclude, container and services with credentials/env/ports/volumes/options, environment, runs-on group/labels, reusable-workflow calls, every step key incl. docker entrypoint/args); for EVERY scalar that is a mapping value or sequence element, the YAML tree is rewritten with that scalar replaced by a malformed placeholder (4 shapes), re-emitted and linted by the real linter: a diagnostic must sit on that scalar, and be an [expression] syntax error wherever the value is an expression template; the same again with the key/value pair moved to every other position of its mapping (sibling order); non-trivial = distinct (file, key path, placeholder) mutations"
 	type miss struct{ key, desc string }
 	sitesTotal, sitesEvaluated := 0, 0
-	for _, name := range []string{"a.yml", "b.yml", "c.yml"} {
-		base := wfBases[name]
+	names := []string{"a.yml", "b.yml", "c.yml"}
+	bases := map[string]string{}
+	for k, v := range wfBases {
+		bases[k] = v
+	}
+	// every workflow of the project's own test data that lints clean here is a further premise
+	var corpus []string
+	for _, d := range []string{"ok", "examples"} {
+		m, _ := filepath.Glob(filepath.Join("/repo/testdata", d, "*.yaml"))
+		corpus = append(corpus, m...)
+	}
+	sort.Strings(corpus)
+	nCorpus := 0
+	for _, f := range corpus {
+		b, err := os.ReadFile(f)
+		if err != nil {
+			continue
+		}
+		if errs, err := lintSrc(filepath.Base(f), string(b)); err != nil || len(errs) > 0 {
+			continue
+		}
+		if _, err := parseYAML(string(b)); err != nil {
+			continue
+		}
+		n := "testdata/" + filepath.Base(filepath.Dir(f)) + "/" + filepath.Base(f)
+		bases[n] = string(b)
+		names = append(names, n)
+		nCorpus++
+	}
+	r.Rule += fmt.Sprintf("; the same for the %d workflows under /repo/testdata/{ok,examples} that lint clean (first placeholder shape, order as written%s)", nCorpus, map[bool]string{true: "", false: " and all sibling orders"}[c.quick])
+	for _, name := range names {
+		base := bases[name]
+		isCorpus := strings.HasPrefix(name, "testdata/")
 		if errs, err := lintSrc(name, base); err != nil || len(errs) > 0 {
 			msg := ""
 			if len(errs) > 0 {
@@ -81,6 +114,9 @@ func runC03(c *ctx, r *Report) error {
 			for vi, va := range variants {
 				for bi, bad := range badPlaceholders {
 					if vi > 0 && bi > 0 && (c.quick || bi > 1) {
+						continue
+					}
+					if isCorpus && (bi > 0 || (vi > 0 && c.quick)) {
 						continue
 					}
 					m := cloneNode(root)
